@@ -1,9 +1,42 @@
 """property id -> engine"""
+import json
 
 
 def run(prop, tier, seed):
     from . import engine_core
     if prop in engine_core.PROPS:
         return engine_core.run(prop, tier, seed)
+    if prop == 'C08':
+        from . import engine_journal
+        return engine_journal.run(prop, tier, seed)
+    if prop == 'C11':
+        from . import engine_chunking
+        return engine_chunking.run(prop, tier, seed)
+    if prop == 'C13':
+        from . import engine_framing
+        return engine_framing.run(prop, tier, seed)
+    if prop == 'C15':
+        from . import engine_batteries
+        return engine_batteries.run(prop, tier, seed)
     print('no engine registered for', prop)
     return 2
+
+
+def replay(path):
+    eng = json.load(open(path)).get('engine', 'core')
+    if eng == 'core':
+        from . import engine_core
+        return engine_core.replay(path)
+    if eng == 'journal':
+        from . import engine_journal
+        return engine_journal.replay(path)
+    if eng == 'chunking':
+        from . import engine_chunking
+        return engine_chunking.replay(path)
+    if eng == 'framing':
+        from . import engine_framing
+        return engine_framing.replay(path)
+    if eng == 'batteries':
+        from . import engine_batteries
+        return engine_batteries.replay(path)
+    raise SystemExit('unknown engine ' + eng)
